@@ -50,7 +50,7 @@ def main():
     product = list(G.check_product())
     cases = corpus_cases()
     cases += [(False, None, p, m, [], []) for p in G.PATHS + G.GATED_PATHS for m in ([], ['pl'], ['de'], ['xx'])]
-    cases += product if (big or chk.broken) else rng.sample(product, 1500)
+    cases += product if (big or chk.broken) else rng.sample(product, 1200)
     cases += G.check_cases(rng, (150000 if big else 4000) * boost, T, gated=True)
 
     # ---------------- correspondence: real code vs Lean model
